@@ -32,6 +32,8 @@ SPEC = dict(
              "update) or the hook verif_insert_hash",
              "std's select_nth_unstable/sort_unstable are taken to return a permutation with the documented partition/order property",
              "u64/usize width: hashes offered through update() are 63-bit; the model works on unbounded N and never relies on wrap-around"],
-    assumptions=["lg_k in 5..=26 and a ResizeFactor of the enum (the builder asserts lg_k; sampling_probability in (0,1] is asserted "
+    assumptions=["the seed's 16-bit seed hash is not zero (ThetaSketchBuilder::seed() panics otherwise, documented since /repo "
+                 "fix 1641259; about one seed in 65536, e.g. 50541)",
+                 "lg_k in 5..=26 and a ResizeFactor of the enum (the builder asserts lg_k; sampling_probability in (0,1] is asserted "
                  "by the builder but not needed by the theorems)"],
 )
